@@ -32,6 +32,14 @@ def install():
 
     def apply_pka_values(self, force_field, ph, pkadic):
         mark = len(pipeline._CAP.records) if pipeline._CAP else 0
+        if STUB.get("inject_terminal") and STUB.get("table"):
+            # API-level route: the terminal groups' entries are handed to the titration stage directly, under the key
+            # format apply_pka_values itself looks up (main.non_trivial never lets them through - a listed finding)
+            pkadic = dict(pkadic)
+            for row in STUB["table"]:
+                lab = row["group_label"]
+                if lab.startswith(("N+", "C-")):
+                    pkadic[f"{lab[:2]}  {row['res_num']:>3} {row['chain_id']}".strip()] = row["pKa"]
         STUB["pkadic_keys"] = list(pkadic)
         try:
             return orig_apply(self, force_field, ph, pkadic)
